@@ -151,8 +151,14 @@ int main()
   std::vector<std::string> t;
   while (drv::next_tokens(t)) {
     fflush(stdout);
+    int fd[2];
+    if (pipe(fd) != 0)
+      return 3;
     pid_t pid = fork();
-    if (pid == 0) {
+    if (pid == 0) { // everything the child prints goes through the pipe, so that each case answers exactly one line
+      close(fd[0]);
+      dup2(fd[1], 1);
+      dup2(fd[1], 2);
       try {
         run_case(t);
       } catch (std::exception const& ex) {
@@ -161,12 +167,25 @@ int main()
       fflush(stdout);
       _exit(0);
     }
+    close(fd[1]);
+    std::string all;
+    char buf[4096];
+    ssize_t n;
+    while ((n = read(fd[0], buf, sizeof buf)) > 0)
+      all.append(buf, n);
+    close(fd[0]);
     int st = 0;
     waitpid(pid, &st, 0);
-    if (not WIFEXITED(st) || WEXITSTATUS(st) != 0) {
-      printf("ERR crash status=%d\n", st);
-      fflush(stdout);
-    }
+    for (auto& ch : all)
+      if (ch == '\n' || ch == '\r')
+        ch = ' ';
+    while (not all.empty() && all.back() == ' ')
+      all.pop_back();
+    if (all == "ok" && WIFEXITED(st) && WEXITSTATUS(st) == 0)
+      printf("ok\n");
+    else
+      printf("ERR status=%d %s\n", st, all.substr(0, 600).c_str());
+    fflush(stdout);
   }
   return 0;
 }
